@@ -38,7 +38,7 @@ int main(int argc, char **argv)
             cx_log_reset();
             cx_spawns = 0; cx_fgets_calls = 0; cx_fgets_budget = 0;
             cx_env_clear();
-            cx_env_set("HOME", "/home/user"); cx_env_set("A", "valueA"); cx_env_set("FOO", "foo bar"); cx_env_set("TMPDIR", ".");
+            cx_env_set("HOME", "/home/user"); cx_env_set("A", "valueA"); cx_env_set("FOO", "foo bar"); cx_env_set("TMPDIR", "."); cx_env_set("INCP", "inc");
             cx_model_begin_expansion(&xmodel); cx_model_reset_store(&xmodel); memset(&xmodel, 0, sizeof xmodel);
 
             /* ---- classes */
@@ -58,6 +58,9 @@ int main(int argc, char **argv)
             int balanced = !vh_coin(15);
             int many_ctx = vh_coin(12);
             n_reg = many_ctx ? (int) vh_range(18, 90) : (int) vh_range(0, 12);
+            /* a full table: every id the 8-bit context id can name (254 besides null), and a few registrations more, which are refused */
+            int full_table = many_ctx && vh_coin(12), refused_extra = 0;
+            if (full_table) { n_reg = 254; refused_extra = (int) vh_range(1, 3); }
 
             /* ---- subsystem + registrations */
             spifconf_init_subsystem(); subsys_live = 1;
@@ -68,7 +71,8 @@ int main(int argc, char **argv)
                 char nm[24];
                 if (i == null_at) {
                     vh_op("register null (replaces the built-in handler) after %d other contexts", i);
-                    unsigned char id = spifconf_register_context((spif_charptr_t) "null", cx_handlers[0]);
+                    static const char *NULLNAMES[] = { "null", "null", "NULL", "Null", "nULl" };          /* context names are matched without regard to case */
+                    unsigned char id = spifconf_register_context((spif_charptr_t) NULLNAMES[vh_below(5)], cx_handlers[0]);
                     int want = cx_ctxs_register(&ctxs, "null", 0);
                     VH_CHECK(id == want, "register:id", "registering \"null\" after %d other contexts returned id %u, expected %d", i, id, want);
                     if (i > 0) vh_count("null_replaced_after_other_contexts", 1);
@@ -78,6 +82,13 @@ int main(int argc, char **argv)
                 int want = cx_ctxs_register(&ctxs, nm, ctxs.n);          /* handler number == id */
                 unsigned char id = spifconf_register_context((spif_charptr_t) nm, cx_handlers[want]);
                 VH_CHECK(id == want, "register:id", "registering context #%d %s returned id %u, expected %d", i, nm, id, want);
+            }
+            for (int x = 0; x < refused_extra; x++) {
+                char nm[24]; snprintf(nm, sizeof nm, "over%d", x);
+                vh_op("register %s with the table full (254 contexts): must be refused without any effect", nm);
+                unsigned char id = spifconf_register_context((spif_charptr_t) nm, cx_handlers[1]);
+                VH_CHECK(id == (unsigned char) -1, "register:id", "registering %s with all 254 ids taken returned id %u, expected the refusal value 255", nm, id);
+                vh_count("registrations_refused_with_a_full_table", 1);
             }
             if (expansion_case) cx_register_customs(0);
             vh_op("registered %d contexts%s; target depth %d, include chain %d, loose includes %d, %s%s", n_reg, null_replaced ? " + null" : "", target_depth,
@@ -91,7 +102,7 @@ int main(int argc, char **argv)
             /* ---- the tree */
             cx_g.ctxs = &ctxs; cx_g.n_reg = n_reg; cx_g.expansion = expansion_case;
             cx_g.target_depth = target_depth; cx_g.files_left = files_left; cx_g.chain_left = chain_left;
-            cx_g.cycles = vh_coin(30); cx_g.overlong_left = 3;
+            cx_g.cycles = vh_coin(30); cx_g.overlong_left = 3; cx_g.inc_through_env = 1;
             cx_file *mainf = cx_gen_tree("main.cfg", balanced, 1);
             cx_g.cycles = 0;
             int max_level = cx_g.max_level;
